@@ -165,6 +165,34 @@ func c09(c *Ctx) {
 					}
 				}
 			}
+			if !marked {
+				// the verdict is computed first and stored once: verdicts[i] = code; if code == Accepted { append }
+				for _, b := range f.Blocks {
+					for _, in := range b.Instrs {
+						st, ok := in.(*ssa.Store)
+						if !ok {
+							continue
+						}
+						ia, ok := st.Addr.(*ssa.IndexAddr)
+						if !ok || !isRequestKeysOrVerdicts(ia.X) {
+							continue
+						}
+						src := core.Unwrap(st.Val)
+						if cv, ok := src.(*ssa.Convert); ok {
+							src = cv.X
+						}
+						isAccepted := core.AnyFact(func(fc core.Fact) bool {
+							return core.CmpFact(fc, func(op token.Token, x, y ssa.Value) bool {
+								k, isC := core.ConstInt(y)
+								return op == token.EQL && x == src && isC && k == 0
+							})
+						})
+						if core.InstrGuarded(ap, isAccepted, nil) == nil && core.MustPassBefore(ap, func(i2 ssa.Instruction) bool { return i2 == ssa.Instruction(st) }) == nil {
+							marked = true
+						}
+					}
+				}
+			}
 			r.Check(marked, "R2.accept-gates", pfx+"marked-with-append", p.Pos(ap.Pos()), "the key is marked accepted in the same step as it is appended", "marking a key accepted and appending it to the accepted list are not done together")
 		}
 		// every other place that marks accepted must be an append block
